@@ -23,7 +23,6 @@ extern volatile int g_in_lib;
 extern volatile int g_cur_ses;
 
 void ad_global_reset(uint64_t scramble);
-uint64_t ad_peek_of_seed(void);
 
 int ad_create(void **ses, int codec, int role, int sid);
 int ad_release(void *ses, int sid);
@@ -48,6 +47,8 @@ typedef void (*shim_entry_fn)(void *ctx, uint32_t row, uint32_t esi);
 int shim_pchk_walk(void *ses, shim_entry_fn fn, void *ctx);   /* -1: no matrix */
 int shim_extra_entries(void *ses);
 void shim_warm_rs(void);
+int shim_available(void);                                      /* 0 when the stub is linked */
+void shim_scramble_prng(uint64_t scramble);
 
 #ifdef __cplusplus
 }
